@@ -193,6 +193,8 @@ Fixpoint in_loop (items : string) (p : list frame) : bool :=
   | FErr _ :: r => in_loop items r
   end.
 
+Definition is_read_leaf (l : leaf) : bool := match lf_kind l with LCall _ Reads => true | _ => false end.
+
 (* does an error reported by the leaf reach the result of the closure it stands in (the nearest
    ApplyFuncIfNoError above it)?  Every [OnErr] between the leaf and that wrap must hand it on. *)
 Fixpoint err_reaches_wrap (p : list frame) : bool :=
@@ -279,7 +281,17 @@ Definition unit_propagates_error (t : list (string * hook)) (u : unit_spec) : bo
     let occ := filter (fun l => leaf_is_call c l && (String.eqb (u_loop u) "" || in_loop (u_loop u) (lf_path l))) ls in
     negb (Nat.eqb (length occ) 0) && forallb (fun l => err_reaches_wrap (lf_path l)) occ) (u_calls u).
 
+(* ... and beyond the calls the units name: EVERY leaf under an ApplyFuncIfNoError that is not a plain
+   read (state-changing calls, expanded rows, risky constructs) hands its error on to the nearest
+   wrap above it, in every hook *)
+Definition wrapped_leaf_propagates (l : leaf) : bool :=
+  negb (under_wrap (lf_path l)) || is_read_leaf l || err_reaches_wrap (lf_path l).
+
 (* No unit is exempted: every unit of [hook_units] must be wrapped on the regenerated table.
+   Likewise for [unit_propagates_error]: the incentive hook and the emergency-shutdown hook used to run
+   their steps inside ONE closure that logged / skipped a step's error (OnErr SwallowsErr on the
+   regenerated rows: findings C15-F4 and C15-F5, reproduced with reachable failing-late steps); since
+   the fixes each step runs in its own ApplyFuncIfNoError whose closure returns the step's error.
    History of the former exemptions (classes of known findings, all repaired or withdrawn):
    - kf_C15_1, the V2 borrow unit: LiquidateBorrows runs each borrow inside ApplyFuncIfNoError since
      fix C09-F3 / C15-F1;
